@@ -434,6 +434,9 @@ func TestVerifC11CloneIndependent(t *testing.T) {
 	rapid.Check(t, func(t *rapid.T) {
 		doc := cgGenConfDoc(t, opts)
 		style := rapid.IntRange(0, 5).Draw(t, "yamlStyle")
+		for _, n := range cgUnknownTypeNotes() {
+			rec.Note(n)
+		}
 		seed := rapid.IntRange(0, 9999).Draw(t, "fillSeed")
 		docJSON, _ := json.Marshal(doc)
 		desc := fmt.Sprintf("doc=%s fillSeed=%d", docJSON, seed)
